@@ -247,6 +247,46 @@ def detector_case(ctx, r):
     events = base.get("predict", ("exc",))[0] == "ok" and len(base["predict"][1]) >= 1
     if events:
         ctx.stat("baseline_with_events")
+    # ---- ONE fitted object asked with every representation in turn ------------------------------
+    # (results must not depend on the form of an earlier call: a cache keyed on the bare numbers
+    # would hand back an output carrying the earlier call's index or dtype)
+    if base.get("fit", ("exc",))[0] == "ok":
+        # every (representation, entry point) pair once, in a fully shuffled order: any entry point
+        # may directly follow any other one on another form of the same numbers
+        pairs = [(rep, entry) for rep in reps for entry in ("predict", "transform_scores", "transform")]
+        order = np.random.default_rng(len(r["A"]) + p).permutation(len(pairs))
+        try:
+            with time_limit(120):
+                one = build(spec).fit(represent(A, "baseline"))
+                for j in order:
+                    rep, entry = pairs[int(j)]
+                    if True:
+                        if base.get(entry, ("exc",))[0] != "ok":
+                            continue
+                        Xr = represent(A, rep)
+                        try:
+                            val = getattr(one, entry)(Xr)
+                        except CaseTimeout:
+                            raise
+                        except Exception as ex:
+                            ctx.violation(sub, f"exception-one-representation[{entry}]",
+                                          f"{label}: one fitted object, {entry} with representation {rep} raised "
+                                          f"{type(ex).__name__}: {str(ex)[:120]}", r, {"rep": rep, "entry": entry})
+                            continue
+                        ctx.stat("same_object_calls")
+                        if not same_value(base[entry][1], val):
+                            ctx.violation(sub, f"different-output[{entry}]", f"{label}: one fitted object asked "
+                                          f"with representation {rep} after other forms: {entry} differs from "
+                                          f"the reference", r, {"rep": rep, "entry": entry})
+                        if entry != "predict":
+                            want = Xr.index if hasattr(Xr, "index") else pd.RangeIndex(n)
+                            if not (val.index.equals(want) and type(val.index) is type(want)):
+                                ctx.violation(sub, f"dense-index[{entry}]", f"{label}: one fitted object: {entry} "
+                                              f"with representation {rep} carries index {val.index!r:.100}, not "
+                                              f"X's own (earlier calls used other forms)", r,
+                                              {"rep": rep, "entry": entry})
+        except CaseTimeout:
+            ctx.stat("case_timeouts")
     for rep, obs in list(results.items()) + [("baseline", base)]:
         u, c = obs.get("update"), obs.get("fit_on_combined")
         if u and c and u[0] == "ok" and c[0] == "ok":
